@@ -247,5 +247,9 @@ def ref_parse(rules: dict, start_rule: str, text: str, start_pos: int = 0):
 
 
 def tree_of(pairs) -> list:
-    """real Pairs -> nested tuples comparable with the reference's."""
+    """real Pairs -> nested tuples comparable with the reference's (tags are compared between modes, not with the Spec)."""
     return [(p.name, p.start, p.end, tree_of(p.children)) for p in pairs]
+
+
+def tagged_tree_of(pairs) -> list:
+    return [(p.name, p.tag, p.start, p.end, tagged_tree_of(p.children)) for p in pairs]
